@@ -193,7 +193,7 @@ class Experiment:
         source    = DiskSource(result_file) if result_file else ListSource(sink.items)
         decode    = TransactionDecode()
         result    = TransactionResult()
-        preamble  = Identity() if restored else Insert([["T0",meta]])
+        preamble  = Identity() if restored and restored.experiment else Insert([["T0",meta]])
 
         try:
             lrn_mismatch = restored and n_given_lrns != restored.experiment.get('n_learners',n_given_lrns)
